@@ -298,6 +298,21 @@ def v_cases(tier, rng):
                                 if sname == "Chebyshev" and kind == "spd" and var == 0:
                                     c["n"] = 2      # symmetric 2x2 with equal diagonal: the constant vector is an eigenvector
                             cases.append(c)
+                    # numeric re-initialisation after the matrix values changed in place (same pattern): init_symbolic; init_numeric;
+                    # solve; update; done_numeric; init_numeric; solve (= reference of the new matrix, bitwise = a fresh solver
+                    # object); done; init; solve; values back; done; init; solve (bitwise = the first solve)
+                    for kind in kinds:
+                        if kind in ("near1", "ispd"):
+                            continue
+                        c = dict(solver=sname, prec=prec, scen="update", mode=rng.choice(["apply", "correct"]), omega=1.0,
+                                 rawmat=rng.choice([False, True]),
+                                 cfg=dict(tol_rel=rng.choice([1e-4, 1e-8]), max_iter=400, skip=rng.choice([True, False])))
+                        c.update(system(kind, delta=rng.choice([0.3, 1.0])))
+                        if sname == "Chebyshev":
+                            c["nfilter"] = 0
+                        if prec == "ilu":
+                            c["dens"] = rng.choice([0.15, 0.4])
+                        cases.append(c)
                     # exact breakdown: 1x1 system, scaled identity, right hand side = eigenvector, all data exact in floating point:
                     # the solvers of the unchanged tree detect the exact zero pseudo defect / residual
                     for k, (kind, nn) in enumerate((("one", 1), ("sid", 4), ("diagev", 6))):
@@ -457,7 +472,8 @@ def run(chk):
                 "diagonally dominant / integer / near-identity, n <= 60, optional unit filter) x scenario (random limits, convergence, "
                 "Krylov space exhaustion on fixed inputs, exact breakdown (1x1 / scaled identity / eigenvector rhs with exact data), raw "
                 "operator + unit filter (constraints imposed by filter_def/filter_cor alone, through correct() and apply()), smoother "
-                "configuration, exact start / zero rhs, injected preconditioner failure), each case = "
+                "configuration, exact start / zero rhs, injected preconditioner failure, matrix values updated in place followed by "
+                "done_numeric/init_numeric, a fresh solver object, done/init and the values restored), each case = "
                 "3-4 solves on one object (again, done/init, other entry point); non-trivial = at least one iteration step; distinct = "
                 "distinct behaviour / distinct (solver, preconditioner, scenario, system, outcome)")
     chk.assumptions = ["contradictory limits (min_iter > max_iter) have no declarative meaning; the code lets min_iter win "
